@@ -21,14 +21,25 @@ from .common import CONN_FIELDS, PACKET_CLASSES, PACKET_INLINE, PACKET_TRUTHY, R
 from .c06_handlers import (HSpec, finish, total, ki_cut0, ki_cut, ki_setup, KI_CASES, KI_INLINE, PARAMS as KI_PARAMS,
                            is_set, pkt, pkt_wf, nk_switched, first_check_region, CLASSES as H_CLASSES)
 
-__all__ = []
+__all__ = ['extra_checks']       # c11.py has no extra_checks of its own
 
 ASSUMPTIONS_KEXINIT = [
-    '_kexinit_sent writers: _recv_version and the re-key trigger in send_packet (set True right after their '
-    '_send_kexinit() call; send_packet is under contract in c11.py), _process_kexinit (under contract here: always '
-    'False afterwards); _send_kexinit itself leaves the flag alone (frame proved here)',
+    '_kexinit_sent writers, all under contract: the re-key trigger in send_packet (c11.py: set iff an exchange started '
+    'in the activation), the tail of _recv_version (region contract here: first KEXINIT sent once and recorded), '
+    '_process_kexinit (region contract here: always False afterwards); _send_kexinit itself leaves the flag alone '
+    '(frame proved here).  K3 `_kex is not None => not _kexinit_sent` is a precondition of send_newkeys: the region '
+    'contract of _process_kexinit proves the flag False at the point where the negotiation (which creates _kex) '
+    'starts; that nothing in between (the [negotiate] region: no send_packet call) sets it again is by the frame of '
+    'c03.kexinit_negotiate, registered under C11 as well',
     '_session_id writers: __init__ (b\'\') and send_newkeys (writer scan); packet.NameList is an uninterpreted '
     'encoding; time.monotonic() is an uninterpreted non-decreasing integer',
+    'send_newkeys (C11 clone of the C02 contract frame): send_packet(MSG_NEWKEYS) and _send_deferred_packets() go '
+    'through their verified contracts; _send_ext_info / send_service_request remain abstract (no effect on the '
+    'send-side bookkeeping is modelled for them: each is one more send_packet call of a type that is never queued '
+    'while _kex_complete is still False); cipher block sizes are 1, 8 or 16 (read from the registered cipher table '
+    'as data: lemma in extra_checks)',
+    'clauses shared with other properties are registered under C11 too (same Spec objects): c03.kexinit_record, '
+    'c03.kexinit_negotiate, c02.compute_key, c06.finish_recv_packet, c06.recv_packet (own C11 clauses)',
 ]
 
 # ------------------------------------------------------------------------------------------------ _send_kexinit
@@ -166,6 +177,35 @@ kexinit_second.tag = 'already-running'
 kexinit_second.no_replay = True
 
 
+# ------------------------------------------------------------------------------------------------ _recv_version (first KEXINIT)
+# the other writer of `_kexinit_sent = True`: right after the peer's version line was accepted our first KEXINIT goes
+# out and the flag records it (so that the peer's KEXINIT, which is the answer to it or crosses it, is NOT answered
+# with a second one).  Region = the statements of that branch from the _send_kexinit() call on.
+def rv_tail_region(fn):
+    for node in ast.walk(fn):
+        if isinstance(node, ast.If):
+            for i, st_ in enumerate(node.body):
+                if isinstance(st_, ast.Expr) and isinstance(st_.value, ast.Call) and \
+                        ast.unparse(st_.value.func) == 'self._send_kexinit':
+                    return node.body[i:]
+    raise Unsupported('_recv_version: no _send_kexinit() call (region of the first-KEXINIT contract)')
+
+
+recv_version_tail = finish(HSpec(
+    'C11', 'connection', 'SSHConnection._recv_version', self_class='SSHConnection',
+    classes=dict(SK_CLASSES, SSHConnection=dict(SK_FIELDS)), region=rv_tail_region,
+    stubs={'self._send_kexinit': contract_stub(lambda: send_kexinit)},
+    requires=lambda c: sk_send_inv(c),
+    ensures=[('first-KEXINIT-sent-once-and-recorded-in-kexinit_sent', lambda c: z3.And(
+        z3.BoolVal(len(c.calls('_send_kexinit')) == 1), c.new('_kexinit_sent'), z3.Not(c.new('_kex_complete')))),
+        ('packet-framing-starts-after-the-version-line', lambda c: c.eq(
+            c.newv('_recv_handler'), VTag('method:SSHConnection._recv_pkthdr')))],
+    raises={'AssertionError': lambda c: z3.And(c.old('_gss_kex'), z3.Not(is_set(c, '_gss'))),
+            'ProtocolError': sk_rollover, 'CompressionError': True}))
+recv_version_tail.tag = 'first-kexinit'
+recv_version_tail.no_replay = True
+
+
 # ------------------------------------------------------------------------------------------------ _process_newkeys
 def nk_replay_is_error(c):
     """the state a successful NEWKEYS leaves behind is exactly the state in which NEWKEYS is refused"""
@@ -212,39 +252,67 @@ def _made_keys(st):
 
 
 def nk_send_stub(cx):
-    """self.send_packet inside send_newkeys: NEWKEYS leaves while the exchange is still marked as running (so nothing
-    that was held back can overtake it) and under the OLD send keys (RFC 4253 7.3: the new keys apply AFTER it)"""
+    """self.send_packet inside send_newkeys = the VERIFIED contract of send_packet (c11.py), plus the ordering this
+    property needs: NEWKEYS leaves while the exchange is still marked as running (so nothing that was held back can
+    overtake it) and under the OLD send keys (RFC 4253 7.3: the new keys apply AFTER it)"""
     if concrete_int(cx.args[0]) == 21:
         old_enc = cx.ex.get_field(cx.ex.entry_state, cx.ex.self_ref, '_send_encryption')
         cx.require('NEWKEYS-leaves-while-the-exchange-is-still-marked-running', z3.Not(cx.selff('_kex_complete').z))
         cx.require('NEWKEYS-leaves-under-the-old-send-keys',
                    cx.ex.veq(cx.st, old_enc, cx.selff('_send_encryption')))
-    return [Out(event=('send_packet', tuple(cx.args)))]
+    outs = contract_stub(lambda: _c11().send_packet)(cx)
+    outs[0].event = ('send_packet', tuple(cx.args))
+    return outs
 
 
 nk_send_stub.modifies = ()
+nk_send_stub.spec_getter = lambda: _c11().send_packet
 
 
 def nk_flush_stub(cx):
-    """self._send_deferred_packets() at the end of send_newkeys: what was held back during the exchange is released
-    only once NEWKEYS is out, the new send keys are installed and _kex_complete is raised"""
+    """self._send_deferred_packets() at the end of send_newkeys = the VERIFIED contract of _send_deferred_packets
+    (its precondition - class invariant of the send side, legal types in the queue - is an obligation here), plus the
+    ordering: what was held back during the exchange is released only once NEWKEYS is out, the new send keys are
+    installed and _kex_complete is raised.  The two ghost logs of the flush are local to it: they start empty."""
     made = _made_keys(cx.st)
     cur = cx.selff('_send_encryption')
     cx.require('flush-only-after-kex_complete-is-raised', cx.selff('_kex_complete').z)
     cx.require('flush-only-after-NEWKEYS-went-out', z3.BoolVal(_newkeys_sent(cx.st)))
     cx.require('flush-only-under-the-new-send-keys', z3.Or(*[same_obj(cur, m) for m in made] + [z3.BoolVal(False)]))
-    return [Out(event=('flush_deferred', ()))]
+    c11 = _c11()
+    empty = VSeq(z3.Empty(sort_of(parse_type(c11.SEQT))), parse_type(c11.TUP))
+    for g in ('ghost_resubmitted', 'ghost_requeued'):
+        cx.st.set_field(cx.ex.self_ref, g, empty)
+    outs = contract_stub(lambda: c11.send_deferred)(cx)
+    outs[0].event = ('flush_deferred', ())
+    return outs
 
 
 nk_flush_stub.modifies = ()
+nk_flush_stub.spec_getter = lambda: _c11().send_deferred
+
+
+def nk_enc_params_stub(inner):
+    """get_encryption_params as in c02.py, plus the fact (read from the registered cipher table as data, see
+    extra_checks) that cipher block sizes are 1, 8 or 16 - so the send block size installed here satisfies the class
+    invariant of the send side (8 <= block size <= 128) that _send_deferred_packets / send_packet require"""
+    def stub(cx):
+        outs = inner(cx)
+        bs = outs[0].ret.items[2].z
+        outs[0].assume.append(z3.Or(bs == 1, bs == 8, bs == 16))
+        return outs
+    stub.modifies = ()
+    return stub
 
 
 def nk_flushed(c):
-    """a completed exchange releases the held-back packets exactly once (the only normal return without it is the
-    connect(wait='kex') short-cut, which leaves the exchange marked as running: nothing flows, the caller closes)"""
-    n = len(c.events('flush_deferred'))
+    """a completed exchange releases the held-back packets exactly once, after _kex_complete was raised (pre-at-call
+    obligation of the flush; the flush itself may start the NEXT exchange when the backlog reaches the byte limit, so
+    nothing is said about the flag afterwards).  The only normal return without a flush is the connect(wait='kex')
+    short-cut, which leaves the exchange marked as running: nothing flows, the caller closes."""
+    n = len(c.calls('_send_deferred_packets'))
     early = len(c.events('waiter_set')) == 1
-    return z3.Or(z3.And(z3.BoolVal(n == 1 and not early), c.new('_kex_complete')),
+    return z3.Or(z3.BoolVal(n == 1 and not early),
                  z3.And(z3.BoolVal(n == 0 and early), c.new('_kex_complete') == c.old('_kex_complete')))
 
 
@@ -260,6 +328,26 @@ def nk_fresh_keys(c):
                  z3.And(same_obj(send, made[1]), same_obj(recv, made[0])))
 
 
+def nk_fresh_compression(c):
+    """algorithm changes between exchanges: the compression contexts belong to ONE exchange - the send compressor that
+    is installed and the receive decompressor that is staged are the objects built in THIS activation for the newly
+    negotiated algorithm of their direction (None when that algorithm is 'none'), never a left-over stream of the
+    previous exchange (the peer starts a fresh zlib stream at its NEWKEYS), and the delayed-compression flags are
+    those of the new algorithms"""
+    comp = [x for x in c.calls('get_compressor') if x['exc'] is None]
+    dec = [x for x in c.calls('get_decompressor') if x['exc'] is None]
+    par = [x for x in c.calls('get_compression_params') if x['exc'] is None]
+    if len(comp) != 1 or len(dec) != 1 or len(par) != 2:
+        return z3.BoolVal(False)
+    isc = c.old('_is_client')
+    cs, sc = c.old('_cmp_alg_cs'), c.old('_cmp_alg_sc')
+    return z3.And(c.eq(c.newv('_compressor'), comp[0]['ret']), c.eq(c.newv('_next_decompressor'), dec[0]['ret']),
+                  comp[0]['args'][0].z == z3.If(isc, cs, sc), dec[0]['args'][0].z == z3.If(isc, sc, cs),
+                  par[0]['args'][0].z == cs, par[1]['args'][0].z == sc,
+                  c.new('_compress_after_auth') == z3.If(isc, par[0]['ret'].z, par[1]['ret'].z),
+                  c.new('_next_decompress_after_auth') == z3.If(isc, par[1]['ret'].z, par[0]['ret'].z))
+
+
 def nk_bookkeeping(c):
     """_kex_complete is raised only by an activation that sent NEWKEYS and installed the new send keys; the exchange
     object is gone then (K: `_kex is not None => not _kex_complete` holds afterwards)"""
@@ -271,24 +359,60 @@ def nk_bookkeeping(c):
                   z3.Implies(is_set(c, '_kex', old=False), z3.Not(c.new('_kex_complete'))))
 
 
+def cipher_block_sizes_lemma():
+    """data: the block sizes in the registered cipher table (crypto/cipher.py _cipher_alg_list) are 1, 8 or 16"""
+    from pyvc import extract
+    sizes = set()
+    try:
+        for node in ast.walk(extract.get_module('crypto.cipher').tree):
+            if isinstance(node, ast.Assign) and any(isinstance(t, ast.Name) and t.id == '_cipher_alg_list'
+                                                    for t in node.targets):
+                for elt in node.value.elts:
+                    sizes.add(ast.literal_eval(elt.elts[-1]))
+    except Exception as e:      # noqa
+        return {'name': 'C11.crypto.cipher._cipher_alg_list#block-sizes-in-{1,8,16}', 'verdict': 'unknown',
+                'reason': repr(e)}
+    ok = bool(sizes) and sizes <= {1, 8, 16}
+    return {'name': 'C11.crypto.cipher._cipher_alg_list#block-sizes-in-{1,8,16}',
+            'verdict': 'proved' if ok else 'refuted', 'detail': sorted(sizes), 'backend': 'data (AST literal)',
+            'replayed': True}
+
+
+def extra_checks(tier, seed):
+    return {'lemmas': [cipher_block_sizes_lemma()], 'bounded': []}
+
+
 _c02m = _c02()
 if _c02m is not None:
     _nk = _c02m.send_newkeys
+    _nk11_fields = dict(_c11().SEND_FIELDS)
+    _nk11_fields.update(_nk.classes['SSHConnection'])
+    _nk11_fields.update(ghost_resubmitted=parse_type(_c11().SEQT), ghost_requeued=parse_type(_c11().SEQT))
     send_newkeys_sid = finish(Spec(
         'C11', 'connection', 'SSHConnection.send_newkeys', self_class='SSHConnection', params=dict(_nk.params),
-        classes=_nk.classes,
-        stubs=dict(_nk.stubs, **{'self.send_packet': nk_send_stub, 'self._send_deferred_packets': nk_flush_stub}),
-        # K (see ASSUMPTIONS of c11.py): the exchange that is being finished is marked as running
-        requires=lambda c: z3.And(_nk.requires(c), z3.Not(c.old('_kex_complete'))),
+        classes=dict(_c11().SEND_CLASSES, **dict(_nk.classes, SSHConnection=_nk11_fields)),
+        stubs=dict(_nk.stubs, **{'self.send_packet': nk_send_stub, 'self._send_deferred_packets': nk_flush_stub,
+                                 'get_encryption_params': nk_enc_params_stub(_nk.stubs['get_encryption_params'])}),
+        # K, K3 (see ASSUMPTIONS of c11.py): the exchange that is being finished is marked as running, and our KEXINIT
+        # for the NEXT one has not been sent (_process_kexinit[record] leaves the flag False before _kex is created);
+        # class invariants of the send side and of the queue (proved on their writers send_packet / _send_kexinit /
+        # _send_deferred_packets; send_newkeys itself re-establishes the framing part below)
+        requires=lambda c: z3.And(_nk.requires(c), z3.Not(c.old('_kex_complete')), z3.Not(c.old('_kexinit_sent')),
+                                  sk_send_inv(c), _c11().all_types_ok(c.old('_deferred_packets'))),
         ensures=[('session-id-written-once:first-exchange-hash,then-never-again', lambda c: c.new('_session_id') == z3.If(
             z3.Length(c.old('_session_id')) > 0, c.old('_session_id'), c.arg('h'))),
             ('held-back-packets-are-flushed-once-after-NEWKEYS', nk_flushed),
-            ('new-send-keys-installed,new-receive-keys-staged:both-built-in-this-exchange', nk_fresh_keys)],
+            ('new-send-keys-installed,new-receive-keys-staged:both-built-in-this-exchange', nk_fresh_keys),
+            ('compression-contexts-are-rebuilt-for-this-exchange(send-installed,receive-staged)', nk_fresh_compression)],
         always=[('session-id-of-a-rekey-is-the-old-one', lambda c: z3.Implies(
             z3.Length(c.old('_session_id')) > 0, c.new('_session_id') == c.old('_session_id'))),
-            ('kex_complete-raised-only-after-NEWKEYS-with-the-new-keys-installed', nk_bookkeeping)],
-        raises=dict(_nk.raises)))
-    for _attr in ('no_replay', 'opaque_native', 'runtime_class', 'feasible_timeout_ms', 'lazy_byte_ranges'):
+            ('kex_complete-raised-only-after-NEWKEYS-with-the-new-keys-installed', nk_bookkeeping),
+            ('class-inv(send-side)', lambda c: sk_send_inv(c, old=False)),
+            ('kexinit_sent-only-while-an-exchange-runs', lambda c: _c11().K2(c, old=False))],
+        raises=dict(_nk.raises, ProtocolError=True, CompressionError=True,
+                    AssertionError=lambda c: z3.And(c.old('_gss_kex'), z3.Not(is_set(c, '_gss'))))))
+    for _attr in ('no_replay', 'opaque_native', 'runtime_class', 'feasible_timeout_ms', 'lazy_byte_ranges',
+                  'model_timeout_ms', 'confirm_attempts'):
         if hasattr(_nk, _attr):
             setattr(send_newkeys_sid, _attr, getattr(_nk, _attr))
 
@@ -300,11 +424,20 @@ if _c02m is not None:
 # is the complementary direction for connections with receive keys: the gate itself ends the activation (ProtocolError
 # with no handler invoked) only for the reasons the RFCs give, none of which is "a key exchange is running" -
 #   30..49  no exchange object registered (RFC 4253 7)          60..79  no authentication in progress (RFC 4252)
-#   > 79    authentication not complete (RFC 4252 6)            93..127 unknown / unreadable recipient channel (RFC 4254)
+#   > 79    authentication not complete (RFC 4252 6)            93..127 recipient channel unreadable or not open (RFC 4254)
 # - in particular IGNORE / UNIMPLEMENTED / DEBUG are fatal only before the FIRST NEWKEYS (strict kex, no receive keys
 # yet), never during a re-key; and a message no handler knows is answered UNIMPLEMENTED, not treated as a violation.
 def _gate_records(c):
     return [x for x in c.new_state.calls if x['key'].endswith('process_packet')]
+
+
+def _no_such_channel(c):
+    """the recipient channel field (uint32 right behind the type byte, RFC 4254 5) cannot be read, or names no open
+    channel of this connection"""
+    from pyvc.builtins_model import unbe
+    payload = c.new_state.rec(c.localv('packet')).fields['_packet'].z
+    chans = c.oldv('_channels')
+    return z3.Or(z3.Length(payload) < 5, z3.Not(z3.Select(chans.dom, unbe(z3.Extract(payload, 1, 4)))))
 
 
 def gate_refuses_only_for_rfc_reasons(c):
@@ -315,7 +448,7 @@ def gate_refuses_only_for_rfc_reasons(c):
         z3.And(t >= 30, t <= 49, z3.Not(is_set(c, '_kex'))),
         z3.And(t >= 60, t <= 79, z3.Not(is_set(c, '_auth'))),
         z3.And(t > 79, z3.Not(c.old('_auth_complete'))),
-        z3.And(t >= 93, t <= 127)))
+        z3.And(t >= 93, t <= 127, _no_such_channel(c))))
 
 
 def handled_message_is_not_a_violation(c):
@@ -346,6 +479,41 @@ if _gate is not None:
         ('with-receive-keys-a-handled-message-is-never-a-strict-kex-violation', total(handled_message_is_not_a_violation))]
     recv_gate_rekey.crosscheck_limit = 4        # the function is cross-checked path by path under C06 already
     Spec.registry.append(recv_gate_rekey)
+
+
+# ------------------------------------------------------------------------------------------------ clauses shared with C02 / C03 / C06
+# Four sentences of this property are stated (and proved) in the sidecars of the properties that own the functions.
+# The same Spec objects are registered under C11 as well, so that `./check C11` alone notices a change that breaks a
+# RE-key while leaving the first exchange intact (same contract, same code, property id C11; cross-check samples are
+# kept small because every path is cross-checked under the home property):
+#   c03.kexinit_record      the peer's KEXINIT is recorded verbatim at EVERY exchange (H is over I_C / I_S of this one)
+#   c03.kexinit_negotiate   the algorithms of both directions are negotiated anew at every exchange
+#   c02.compute_key         RFC 4253 7.2 key expansion binds the session id handed in (send_newkeys passes the ORIGINAL
+#                           one, see session-id clauses above), not the current exchange hash
+#   c06.finish_recv_packet  strict kex: the RECEIVE sequence number restarts at every NEWKEYS (the send half is
+#                           `seq-rule` of send_packet)
+def _shared(modname, attr, tag=None):
+    import copy as _cp
+    import importlib
+    try:
+        sp = getattr(importlib.import_module('contracts.' + modname), attr, None)
+    except Exception:       # noqa
+        sp = None
+    if sp is None:
+        return None
+    cp = _cp.copy(sp)
+    cp.prop = 'C11'
+    if tag is not None:
+        cp.tag = tag
+    cp.crosscheck_limit = 2
+    Spec.registry.append(cp)
+    return cp
+
+
+shared_record = _shared('c03', 'kexinit_record', 'record:C03')
+shared_negotiate = _shared('c03', 'kexinit_negotiate', 'negotiate:C03')
+shared_compute_key = _shared('c02', 'compute_key')
+shared_finish_recv = _shared('c06', 'finish_recv_packet')
 
 
 _parent = _sys.modules.get('contracts.c11')
